@@ -15,6 +15,7 @@ import io
 import itertools
 import json
 import os
+import re
 import tempfile
 import xml.parsers.expat
 
@@ -77,6 +78,20 @@ def graph_family():
     out.append([(A, P, NIL)])
     out.append([(b1, FIRST, A), (b1, REST, NIL)])
     out.append([(A, P, b1), (b1, FIRST, A), (b1, REST, b1)])
+    # numeric shorthand shapes, escapes \b \f, language tags with digits (appended: earlier indices are referred to by samples)
+    for lex, dt in (("+1", "integer"), ("007", "integer"), (".5", "decimal"), ("-0.50", "decimal"), ("1e0", "double"), ("1.E0", "double"), ("-.5E-3", "double"),
+                    ("+1.5e+10", "double"), ("false", "boolean")):
+        out.append([(A, P, L(lex, dt=XSDNS + dt))])
+    out.append([(A, P, L("\b\f"))])
+    out.append([(A, P, L("x", lang="de-1996")), (A, P, L("x", lang="de"))])
+    # nested blank-node trees and lists inside trees
+    b3 = B("b3")
+    out.append([(A, P, b1), (b1, P, b2), (b2, P, b3), (b3, Q, L("x"))])
+    out.append([(b1, P, b2), (b2, Q, L("x")), (b1, Q, A)])
+    out.append([(A, P, b1), (b1, Q, b2), (b2, FIRST, A), (b2, REST, NIL)])
+    out.append([(A, P, b1), (b1, FIRST, b2), (b1, REST, NIL), (b2, P, L("x"))])
+    out.append([(A, P, b1), (b1, FIRST, b2), (b1, REST, NIL), (b2, FIRST, A), (b2, REST, NIL)])
+    out.append([(A, P, b1), (A, Q, b2), (NIL, P, A)])
     return out
 
 
@@ -95,7 +110,8 @@ def vectors(flags, maxdev):
             # mutually exclusive quoting / escaping / prefix choices
             s = set(c)
             if len(s & {"single-quote", "long-quote", "long-single-quote"}) > 1 or len(s & {"uchar", "Uchar", "raw"}) > 1 or \
-                    len(s & {"prefix", "sparql-prefix", "empty-prefix"}) > 1 or len(s & {"base", "sparql-base"}) > 1:
+                    len(s & {"prefix", "sparql-prefix", "empty-prefix"}) > 1 or len(s & {"base", "sparql-base"}) > 1 or \
+                    len(s & {"predicate-list", "semicolons"}) > 1 or len(s & {"anon", "nested-anon"}) > 1:
                 continue
             out.append(frozenset(c))
     return out
@@ -227,8 +243,8 @@ def output_case(kind, desc):
         except SyntaxError as e:
             viols.append(("output|nt|rejected-by-strict-grammar", {"output": out[:800], "error": str(e)[:300]}))
         for fmt in ("xml", "pretty-xml"):
-            if not C03.xml_expressible_strict(desc):
-                continue
+            if not C03.xml_expressible_strict(desc) or any(x[0] == "L" and re.search(r"[\x00-\x08\x0b\x0c\x0e-\x1f]", x[1]) for t in desc for x in t):
+                continue  # (XML 1.0 has no spelling for these characters: the graph is outside what RDF/XML can carry)
             o = g.serialize(format=fmt)
             try:
                 p = xml.parsers.expat.ParserCreate(namespace_separator=" ")
@@ -314,7 +330,7 @@ def run(ctx):
         if quads:
             for q in df:
                 items.append((syntax, [list(r) for r in rows_of(q)]))
-    maxdev = 2 if thorough else 1
+    maxdev = int(os.environ.get("VERIF_C05_MAXDEV", 3 if thorough else 2))
     res = R.pmap(_batch, [(sh, maxdev, True) for sh in R.shards(items, ctx.jobs * 8)], ctx.jobs)
     for viols, n, nt in res:
         ctx.extend(viols)
